@@ -286,41 +286,87 @@ func (b *BinaryExpression) SQL() string {
 		return "NOT " + operandSQL(b.Left, precNot)
 	}
 
-	// Operator chains (a OR b OR c ..., a + b + c ...) are parsed into a tree that is
-	// as deep on the left as the chain is long. Walking that spine in a loop and
-	// writing into one builder keeps the cost linear; rendering each level as
-	// left + op + right would copy the text of the whole left side once per level.
-	var spine []binaryParts
-	var parens []bool // parens[i]: the left operand of spine[i] is parenthesised
-	cur := b
-	var leaf Expression
+	return leftSpineSQL(b)
+}
+
+// spineWrap is what one level of a left-nested chain writes around its first operand.
+type spineWrap struct{ prefix, suffix string }
+
+// leftSpineStep describes e when it is a node that writes its first operand first and
+// something after it: a binary operator, a cast, a subscript or a slice. It returns
+// that operand and the text around it.
+func leftSpineStep(e Expression) (Expression, spineWrap, bool) {
+	switch v := e.(type) {
+	case *BinaryExpression:
+		if v == nil || v.isNotExistsShape() {
+			return nil, spineWrap{}, false
+		}
+		p := v.parts()
+		if v.Left != nil && exprPrecedence(v.Left) < p.leftMin {
+			return v.Left, spineWrap{p.prefix + "(", ")" + p.suffix}, true
+		}
+		return v.Left, spineWrap{p.prefix, p.suffix}, true
+	case *CastExpression:
+		if v == nil {
+			return nil, spineWrap{}, false
+		}
+		if castNeedsOperator(v.Type) {
+			return v.Expr, spineWrap{"(", ")::" + v.Type}, true
+		}
+		return v.Expr, spineWrap{"CAST(", " AS " + v.Type + ")"}, true
+	case *ArraySubscriptExpression:
+		if v == nil {
+			return nil, spineWrap{}, false
+		}
+		sb := getBuilder()
+		defer putBuilder(sb)
+		for _, idx := range v.Indices {
+			sb.WriteByte('[')
+			sb.WriteString(exprSQL(idx))
+			sb.WriteByte(']')
+		}
+		return v.Array, subscriptBaseWrap(v.Array, sb.String()), true
+	case *ArraySliceExpression:
+		if v == nil {
+			return nil, spineWrap{}, false
+		}
+		start, end := "", ""
+		if v.Start != nil {
+			start = exprSQL(v.Start)
+		}
+		if v.End != nil {
+			end = exprSQL(v.End)
+		}
+		return v.Array, subscriptBaseWrap(v.Array, "["+start+":"+end+"]"), true
+	}
+	return nil, spineWrap{}, false
+}
+
+// leftSpineSQL serialises a chain of binary operators, casts, subscripts and slices
+// (a OR b OR c ..., x::a::b, a[1][2:3], a -> 'k'::int -> 'j' ...). The parser builds such a
+// chain as a tree that is as deep on the left as the chain is long. Walking that spine in
+// a loop and writing into one builder keeps the cost linear; rendering each level as
+// left + rest would copy the text of the whole left side once per level, whichever of
+// these node kinds the levels are.
+func leftSpineSQL(e Expression) string {
+	var wraps []spineWrap
+	cur := e
 	for {
-		p := cur.parts()
-		spine = append(spine, p)
-		next, ok := cur.Left.(*BinaryExpression)
-		if !ok || next == nil || next.isNotExistsShape() {
-			leaf = cur.Left
-			parens = append(parens, false) // operandSQL decides for the leaf
+		inner, w, ok := leftSpineStep(cur)
+		if !ok {
 			break
 		}
-		parens = append(parens, exprPrecedence(next) < p.leftMin)
-		cur = next
+		wraps = append(wraps, w)
+		cur = inner
 	}
-
 	sb := getBuilder()
 	defer putBuilder(sb)
-	for i, p := range spine {
-		sb.WriteString(p.prefix)
-		if parens[i] {
-			sb.WriteByte('(')
-		}
+	for _, w := range wraps {
+		sb.WriteString(w.prefix)
 	}
-	sb.WriteString(operandSQL(leaf, spine[len(spine)-1].leftMin))
-	for i := len(spine) - 1; i >= 0; i-- {
-		if parens[i] {
-			sb.WriteByte(')')
-		}
-		sb.WriteString(spine[i].suffix)
+	sb.WriteString(exprSQL(cur))
+	for i := len(wraps) - 1; i >= 0; i-- {
+		sb.WriteString(wraps[i].suffix)
 	}
 	return sb.String()
 }
@@ -456,39 +502,7 @@ func (c *CastExpression) SQL() string {
 	if c == nil {
 		return ""
 	}
-	// x::a::b::c is a CastExpression nested once per cast; write the chain in a loop
-	// (see BinaryExpression.SQL) instead of re-copying the inner text at every level.
-	var types []string
-	cur := c
-	for {
-		types = append(types, cur.Type)
-		next, ok := cur.Expr.(*CastExpression)
-		if !ok || next == nil {
-			break
-		}
-		cur = next
-	}
-	sb := getBuilder()
-	defer putBuilder(sb)
-	for _, t := range types {
-		if castNeedsOperator(t) {
-			sb.WriteByte('(')
-		} else {
-			sb.WriteString("CAST(")
-		}
-	}
-	sb.WriteString(exprSQL(cur.Expr))
-	for i := len(types) - 1; i >= 0; i-- {
-		if castNeedsOperator(types[i]) {
-			sb.WriteString(")::")
-			sb.WriteString(types[i])
-			continue
-		}
-		sb.WriteString(" AS ")
-		sb.WriteString(types[i])
-		sb.WriteByte(')')
-	}
-	return sb.String()
+	return leftSpineSQL(c)
 }
 
 // castNeedsOperator reports whether a cast to the type can only be written with
@@ -709,56 +723,26 @@ func (a *ArraySubscriptExpression) SQL() string {
 	if a == nil {
 		return ""
 	}
-	// a[1][2][3] may be one node with several indices or nodes nested on Array;
-	// either way write it in a loop (see BinaryExpression.SQL).
-	var chain []*ArraySubscriptExpression
-	cur := a
-	for {
-		chain = append(chain, cur)
-		next, ok := cur.Array.(*ArraySubscriptExpression)
-		if !ok || next == nil {
-			break
-		}
-		cur = next
-	}
-	sb := getBuilder()
-	defer putBuilder(sb)
-	sb.WriteString(subscriptBaseSQL(cur.Array))
-	for i := len(chain) - 1; i >= 0; i-- {
-		for _, idx := range chain[i].Indices {
-			sb.WriteByte('[')
-			sb.WriteString(exprSQL(idx))
-			sb.WriteByte(']')
-		}
-	}
-	return sb.String()
+	return leftSpineSQL(a)
 }
 
 func (a *ArraySliceExpression) SQL() string {
 	if a == nil {
 		return ""
 	}
-	start := ""
-	end := ""
-	if a.Start != nil {
-		start = exprSQL(a.Start)
-	}
-	if a.End != nil {
-		end = exprSQL(a.End)
-	}
-	return fmt.Sprintf("%s[%s:%s]", subscriptBaseSQL(a.Array), start, end)
+	return leftSpineSQL(a)
 }
 
-// subscriptBaseSQL serialises the expression a subscript or slice is applied to.
-// The parser reads [ ] only after a name, another subscript or a parenthesised
+// subscriptBaseWrap is the text around the expression a subscript or slice is applied
+// to. The parser reads [ ] only after a name, another subscript or a parenthesised
 // expression, so every other base (ARRAY[...], a call, CASE ...) keeps its
 // parentheses.
-func subscriptBaseSQL(e Expression) string {
-	switch e.(type) {
+func subscriptBaseWrap(base Expression, suffix string) spineWrap {
+	switch base.(type) {
 	case *Identifier, *ArraySubscriptExpression, *ArraySliceExpression:
-		return exprSQL(e)
+		return spineWrap{"", suffix}
 	}
-	return "(" + exprSQL(e) + ")"
+	return spineWrap{"(", ")" + suffix}
 }
 
 // GROUP BY advanced expressions
